@@ -23,8 +23,8 @@ Proof. vm_compute. reflexivity. Qed.
 (* the modelled transformers run in this relative order (what the other slices assume) *)
 Lemma gen_transformer_order_modelled :
   filter (fun n => str_in n modelled_transformers) gen_transformer_order =
-  ["NamespaceTransformer"; "PrefixTransformer"; "SuffixTransformer"; "LabelTransformer"; "AnnotationsTransformer";
-   "ReplicaCountTransformer"; "ImageTagTransformer"].
+  ["PatchTransformer"; "NamespaceTransformer"; "PrefixTransformer"; "SuffixTransformer"; "LabelTransformer";
+   "AnnotationsTransformer"; "ReplicaCountTransformer"; "ImageTagTransformer"].
 Proof. vm_compute. reflexivity. Qed.
 
 Lemma pipe_rules_ok : exists rules, pipe_rules = Ok rules.
@@ -577,9 +577,10 @@ End Wrap.
 Definition respell (d : pdirs) : pdirs :=
   match pd_common_labels d with
   | [] => d
-  | cl => mkPDirsX (pd_ns d) (pd_prefix d) (pd_suffix d)
+  | cl => mkPDirsP (pd_ns d) (pd_prefix d) (pd_suffix d)
                    (pd_labels d ++ [Labels.mkLD cl true false []]) []
                    (pd_common_annos d) (pd_cmgens d) (pd_secgens d) (pd_genopts d) (pd_replicas d) (pd_images d)
+                   (pd_patches d)
   end.
 
 (* rewrite the layers selected by [which] (by directory name), anywhere in the tree *)
@@ -648,6 +649,7 @@ Section Respell.
   Proof.
     destruct (pd_common_labels d) as [|cl0 clt] eqn:E; [unfold respell; rewrite E; reflexivity|].
     unfold run_kind.
+    destruct (String.eqb k "PatchTransformer"); [unfold respell; rewrite E; reflexivity|].
     destruct (String.eqb k "NamespaceTransformer"); [unfold respell; rewrite E; reflexivity|].
     destruct (String.eqb k "PrefixTransformer"); [unfold respell; rewrite E; reflexivity|].
     destruct (String.eqb k "SuffixTransformer"); [unfold respell; rewrite E; reflexivity|].
